@@ -471,4 +471,95 @@ theorem api2_roundtrip_toV3 {V : Type} (d : Doc2 V) (h : docBodyBack d = true) :
   rw [toV3_resolves d (docBody_sub d hb)]
   exact api2_roundtrip_body d h
 
+/-! ### the property, assembled -/
+
+theorem bodiesOK_of_back {V : Type} (d : Doc2 V) (h : docBodyBack d = true) : bodiesOK d = true := by
+  simp only [docBodyBack, Bool.and_eq_true] at h
+  obtain ⟨⟨⟨⟨⟨⟨_, hparamsB⟩, _⟩, hpathsB⟩, _⟩, _⟩, _⟩ := h
+  have hin : ∀ cs (q : PRef2 V), inputOKBack cs q = true → bodyParamOK q = true := by
+    intro cs q hq
+    cases q with
+    | ref _ _ => rfl
+    | val p =>
+      simp only [inputOKBack, Bool.or_eq_true] at hq
+      rcases hq with hq | hq
+      · simp only [paramSimpleBack, Bool.and_eq_true, bne_iff_ne, ne_eq] at hq
+        simp [bodyParamOK, hq.1.1.1]
+      · simp only [bodyOKBack, Bool.and_eq_true] at hq
+        cases hs : p.schema with
+        | none => simp [hs] at hq
+        | some s => simp [bodyParamOK, hs]
+  simp only [bodiesOK, Bool.and_eq_true]
+  constructor
+  · apply List.all_eq_true.mpr
+    intro kp hkp
+    have := List.all_eq_true.mp hparamsB kp hkp
+    simp only [sharedOKBack, Bool.or_eq_true, Bool.and_eq_true] at this
+    rcases this with hs | ⟨hb, _⟩
+    · cases hq : kp.2 with
+      | ref _ _ => rfl
+      | val p =>
+        simp only [hq, sharedSimpleBack, Bool.and_eq_true, bne_iff_ne, ne_eq] at hs
+        simp [bodyParamOK, hs.1.1.1]
+    · exact hin d.consumes kp.2 (by simp [inputOKBack, hb])
+  · apply List.all_eq_true.mpr
+    intro p hp
+    have hpb := List.all_eq_true.mp hpathsB p hp
+    simp only [pathBodyBack, Bool.and_eq_true] at hpb
+    apply List.all_eq_true.mpr
+    intro o ho
+    have hob := List.all_eq_true.mp hpb.2 o ho
+    simp only [opBodyBack, Bool.and_eq_true] at hob
+    apply List.all_eq_true.mpr
+    intro q hq
+    exact hin _ q (List.all_eq_true.mp hob.1.1 q hq)
+
+/-- **C17 on the document fragment with body parameters, in one statement** (full statement of the header of
+    Props/C17.lean, outside the open finding classes and up to the order of request inputs / shared parameters):
+    the document converts (ResolveRefsIn included), the converted document passes the modelled part of Validate
+    and describes the same API, converting back does not panic and yields a document that describes that API again. -/
+theorem conversion_correct {V : Type} (d : Doc2 V) (h : docBodyBack d = true) (hn : namesOK d = true) :
+    ∃ d3 d2, toV3 d = .ok d3 ∧ validates3 d3 = true ∧ Api.sim (api3 d3) (api2 d) ∧ fromV3 d3 = some d2 ∧
+      rel2 OpA.sim (api2 d2).ops (api2 d).ops ∧ (api2 d2).pathParams = (api2 d).pathParams ∧
+      (api2 d2).shared.Perm (api2 d).shared ∧ (api2 d2).sharedResponses = (api2 d).sharedResponses ∧
+      (api2 d2).defs = (api2 d).defs ∧ (api2 d2).security = (api2 d).security ∧
+      (api2 d2).securityReq = (api2 d).securityReq ∧
+      (∀ x, x ∈ (api2 d2).servers ↔ x ∈ (api2 d).servers) := by
+  have hb : docBody d = true := by
+    simp only [docBodyBack, Bool.and_eq_true] at h
+    exact h.1.1.1.1.1.1
+  obtain ⟨d3, d2, h1, h2, hrest⟩ := api2_roundtrip_toV3 d h
+  obtain ⟨d3', h1', hsim⟩ := api3_toV3 d (docBody_sub d hb)
+  have he : d3' = d3 := by
+    rw [h1] at h1'
+    simp only [Res.ok.injEq] at h1'
+    exact h1'.symm
+  subst he
+  have hraw : toV3Raw d = .ok d3' := by rw [← toV3_resolves d (docBody_sub d hb)]; exact h1
+  exact ⟨d3', d2, h1, toV3_validates_partial d d3' hraw hn (bodiesOK_of_back d h), hsim, h2, hrest⟩
+
+/-- non-vacuity of `conversion_correct`: shared header and body parameters, an operation mixing an inline body with
+    a query parameter and a reference, another one taking the shared body -/
+example :
+    let q : Param2 Nat := { name := "q", loc := "query", required := false, cons := { ty := some "integer", sc := [("minimum", 1)] },
+                            items := none, schema := none }
+    let hd : Param2 Nat := { name := "X-H", loc := "header", required := true, cons := { ty := some "string" }, items := none, schema := none }
+    let bd : Param2 Nat := { name := "payload", loc := "body", required := true, cons := {}, items := none,
+                             schema := some (.node { ty := some "object", disc := some "kind", req := ["kind"] }
+                               [(Slot.prop "kind", .node { ty := some "string" } []), (Slot.addl, .ref RK.def2 "A")]) }
+    let ok : RRef2 Nat := .val { desc := "ok", headers := [("X-Rate", { hd with name := "", loc := "" })], schema := some (.ref RK.def2 "A") }
+    let d : Doc2 Nat := {
+      loc := { host := "h", basePath := "/v1", schemes := ["https", "http"] }, consumes := ["application/json"], produces := [],
+      params := [("hp", .val hd), ("bp", .val bd)], responses := [("r", ok)],
+      defs := [("A", .node { ty := some "object" } [(Slot.prop "n", .node { ty := some "integer", xnull := true } [])])],
+      secs := [("o", { type := "oauth2", flow := "password", tokenUrl := "https://a/t" })], security := some 1,
+      paths := [{ path := "/p", params := [.ref RK.par2 "hp"],
+                  ops := [{ method := "post", opId := "a", consumes := ["application/xml"], produces := [],
+                            params := [.val bd, .val q], responses := [("200", ok), ("404", .ref RK.resp2 "r")],
+                            info := [("summary", 3)], security := some 0 },
+                          { method := "put", opId := "b", consumes := [], produces := [],
+                            params := [.val q, .ref RK.par2 "bp"], responses := [("200", ok)] }] }] }
+    docBodyBack d = true ∧ namesOK d = true := by
+  decide
+
 end KinModel.Conv
